@@ -23,7 +23,7 @@ defs = {
   "property_id": "C06", "quick_cmd": "./check C06 --tier quick", "thorough_cmd": "./check C06 --tier thorough",
   "evidence_file": "evidence/C06.json", "replay_cmd_template": "./check replay {path}", "engine": "procsim",
   "level_claimed": {"category": "fault_enumeration",
-   "text": "The real complgen binary (built from /repo's working tree) runs under an LD_PRELOAD seam (procsim.so) that owns every open/read/write/statx/lseek on the input, script destination, dot files and stderr. For each seeded workload item (bundled examples, generated valid grammars, one planted mistake per Error variant, warning triggers, token mutations, token soups, a fixed stress corpus) x shell x input{file,stdin} x destination{new,existing+sentinel,stdout pipe,stdout file} x dot outputs, EVERY position of the fault-free syscall trace on input/destination/stderr is hit with every fault kind (EINTR, short read/write, hard errno, short-then-error, size-hint failure), dot-file positions and double faults are sampled. The oracle is the statement's two arms read literally (exit 0 + complete script, or exit 1 + diagnostic + destination untouched) with narrowly waived clauses only for the fault that actually fired (from the shim's event log). The fault dimension is enumerated per sampled input; the input dimension itself is a seeded sample.",
+   "text": "The real complgen binary (built from /repo's working tree) runs under an LD_PRELOAD seam (procsim.so) that owns every open/read/write/statx/lseek on the input, script destination, dot files and stderr. For each seeded workload item (bundled examples, generated valid grammars, one planted mistake per Error variant, warning triggers, token mutations, token soups, a fixed stress corpus) x shell x input{file,stdin} x destination{new,existing+sentinel,stdout pipe,stdout file} x dot outputs, EVERY position of the fault-free syscall trace on input/destination/stderr is hit with every fault kind (EINTR, short read/write, hard errno, short-then-error, persistent errno, size-hint failure), dot-file positions and double faults are sampled; isatty() answers are a configuration; rejected inputs are additionally swept over both file-destination modes; a small real-kernel cross-check (/dev/full, /dev/null, FIFO, /dev/stdout pipe, directory as destination; /dev/full as stderr) ties the simulated fault model to the kernel. The oracle is the statement's two arms read literally (exit 0 + complete script, or exit 1 + diagnostic + destination untouched) with narrowly waived clauses only for the fault that actually fired (from the shim's event log). The fault dimension is enumerated per sampled input; the input dimension itself is a seeded sample.",
    "design_ref": "DESIGN.md 2.1, 3/C06"},
   "level_note": "Trusted: glibc interposition covers every I/O system call of the binary (audited against strace at setup); kernel behaviours injected are legal ones only; allocation failure, close() errors, lost writes and signals are not injected. The input quantifier is sampled, not enumerated.",
   "technique": "deterministic simulation with fault injection: LD_PRELOAD syscall seam, single-fault enumeration over the fault-free trace + seeded double faults, replay = explicit plan file",
@@ -32,7 +32,7 @@ defs = {
   "property_id": "C10", "quick_cmd": "./check C10 --tier quick", "thorough_cmd": "./check C10 --tier thorough",
   "evidence_file": "evidence/C10.json", "replay_cmd_template": "./check replay {path}", "engine": "procsim+history",
   "level_claimed": {"category": "exploration",
-   "text": "Every ambient source the process can consult (getrandom/getentropy bytes, clocks, pid/tid, hostname, the whole environment block, stack/heap/mmap layout with ASLR off and seed-chosen RLIMIT_STACK, environment size and heap pad) is owned by the simulator and varied by seed; a discovery pass records which sources are actually consulted. Script, --dfa and --regex outputs of the real binary must be byte-identical to the canonical-seam reference for every seed, and in the in-process history harness every compile must equal its fresh-process reference whatever was compiled before it in that process. Thorough adds the same harness under Miri (every allocation address and getrandom byte derived from Miri's seed).",
+   "text": "Every ambient source the process can consult (getrandom/getentropy bytes, a clock that advances by a seed-chosen step, pid/tid, hostname, the whole environment block incl. every name the binary is seen to look up, isatty answers, umask, visible CPUs, stack/heap/mmap layout with ASLR off and seed-chosen RLIMIT_STACK, environment size, heap pad and heap fragmentation pattern) and everything that is not part of (grammar, shell) on the command line (how input and outputs are named, stdin vs file, argv[0], pre-existing content of the destinations) is owned by the simulator and varied by seed; a discovery pass records which sources are actually consulted. Script, --dfa and --regex outputs of the real binary must be byte-identical to the canonical-seam reference for every seed, and in the in-process history harness every compile must equal its fresh-process reference whatever was compiled before it in that process. Thorough adds the same harness under Miri (every allocation address and getrandom byte derived from Miri's seed).",
    "design_ref": "DESIGN.md 2.1-2.3, 3/C10"},
   "level_note": "Trusted: the LD_PRELOAD seam reaches every ambient source (discovery log + strace audit); kernel ASLR itself cannot be seeded, so it is switched off and layout is perturbed through stack limit, environment size and heap pad (PIE image base moves only under Miri). A seeded sample of grammars and seeds, not a proof.",
   "technique": "deterministic simulation: seeded control of OS randomness, clocks, identity, environment and address layout around the real binary + in-process compile histories; seeded search, byte-equality oracle against a canonical run",
@@ -43,7 +43,7 @@ defs = {
   "level_claimed": {"category": "exploration",
    "text": "The emitted bash script (real complgen output, real bash 5.2) runs among simulator-owned external commands: every {{{ }}} command is a probe that logs its identity and argv and then plays a seed-assigned behaviour (candidates, tab-separated descriptions, spaces, stderr noise, non-zero exit, empty output, duplicates, >64 KiB output). The recorded invocation history and COMPREPLY are checked against an independent Glushkov position automaton built from the generator's own grammar tree: a command never runs where the grammar does not expect it, receives exactly the documented arguments, its candidates are the text before the first tab filtered by the typed prefix, and earlier words are accepted exactly when they are candidates.",
    "design_ref": "DESIGN.md 2.4, 3/C17"},
-  "level_note": "Trusted: bash itself, the 3-line _get_comp_words_by_ref stub (one configuration uses the real bash-completion), the reference model; grammars are generated 1-unambiguous per point so that union semantics and the script's matching priority coincide. A seeded sample of grammars, command lines and peer behaviours.",
+  "level_note": "Trusted: bash itself, the _get_comp_words_by_ref contract stub (honours -n EXCLUDE; the real bash_completion file is not installed in this sandbox), the reference model; grammars are generated 1-unambiguous per point so that union semantics and the script's matching priority coincide. A seeded sample of grammars, command lines and peer behaviours.",
   "technique": "deterministic simulation of the script's peers: simulator-owned probe commands with injected peer faults, history check against an executable reference model (position automaton)",
  },
 }
